@@ -240,7 +240,12 @@ def run(tier, seed):
         t = c["tree"]
         nary = has_nary(t)
         eqsubst = [x for x in subst if x.get("lt") in ("eq", "ne")][:2]
-        for sm, kc in [(sm, kc) for sm in subst[:2] for kc in (-1, -2, 7)] + [(sm, kc) for sm in eqsubst for kc in (None, 0, False)]:
+        # constants that are EQUAL but not the same (2.0 before 2, True before 1): each keeps its own type; the largest value of
+        # the field's width (255 for the one-byte fields of the world) against a field that holds exactly that value
+        consts = [(sm, kc, (5, 3)) for sm in subst[:2] for kc in (-1, -2, 7)] + [(sm, kc, (5, 3)) for sm in eqsubst for kc in (None, 0, False)] \
+            + [(sm, kc, (5, 3)) for sm in subst[:3] for kc in (2.0, 2, True, 1)] \
+            + [(sm, 255, f12) for sm in subst[:6] for f12 in ((255, 254), (254, 255))]
+        for sm, kc, (f1v, f2v) in consts:
             if True:
                 try:
                     fn = deferred.compile_expr_into_callable(world.build(t, sm, kc))
@@ -248,12 +253,12 @@ def run(tier, seed):
                     v.violation("C09_Result", "building raised %s" % type(e).__name__, {"tree": t, "ops": sm, "K": kc})
                     continue
                 for selv, idx in scenarios(nary)[:2]:
-                    env = {"F1": 5, "F2": 3, "S": b"\x05\x06\x07\x08", "FS": selv, "K": kc}
+                    env = {"F1": f1v, "F2": f2v, "S": b"\x05\x06\x07\x08", "FS": selv, "K": kc}
                     ok, got, exp = same_outcome(lambda: fn(rd.pkt_for(env)), lambda: world.eager(t, env, sm))
                     conc += 1
                     if not ok:
-                        v.violation("C09_Concrete", "deferred %r, eager Python %r (constant %r, F1=5 F2=3 selector=%r ops=%r)" % (
-                            got, exp, kc, env["FS"], sm), {"tree": t, "ops": sm, "K": kc})
+                        v.violation("C09_Concrete", "deferred %r, eager Python %r (constant %r, F1=%r F2=%r selector=%r ops=%r)" % (
+                            got, exp, kc, f1v, f2v, env["FS"], sm), {"tree": t, "ops": sm, "K": repr(kc)})
     v.cov["concrete_evaluations"] = conc
     v.cov["traces_validated_against_impl"] += conc
     # (iii) code -> spec: random larger trees, recorded and validated by TLC
